@@ -244,7 +244,9 @@ class SyncedDict(SyncedCollection, MutableMapping):
             with self._load_and_save:
                 self._data.clear()
             return
-        self._data = {}
+        # Clear in place: buffered collections may share the container with the
+        # buffer, and rebinding the attribute would silently disconnect them.
+        self._data.clear()
         with self._thread_lock:
             self._save()
 
